@@ -251,6 +251,16 @@ def r3_seeding(ctx, rule):
             continue
         ok = False
         ctx.bad(rule, qual, 'initial seed ' + txt + ' under %s' % conds, 'in random_walk mode the initial seed must be a constant', facts, n)
+    # the seed advances between two words: some definition of the seed sits inside the generation loop of run()
+    run_fn = ctx.fn(HS + 'run')
+    run_loops = [x for x in walk_local(run_fn) if isinstance(x, (ast.While, ast.For))]
+    in_loop = [n for qual, txt, conds, n in defs if any(n is y for lp in run_loops for y in ast.walk(lp))]
+    if run_loops and not in_loop:
+        reseeded = any(isinstance(y, ast.Call) and call_name(y) == 'random.seed' for lp in run_loops for y in ast.walk(lp))
+        if reseeded:
+            ok = False
+            ctx.bad(rule, HS + 'run', 'random.seed(self.random_seed) in the word loop, the seed is never changed there',
+                    'every word is drawn with the same seed - the same derivation N times instead of N independent draws', facts, run_loops[0], firm=True)
     if not det_init:
         ok = False
         ctx.bad(rule, HS + '__init__', 'no constant seed for random_walk mode', 'random_walk mode must start from a fixed seed', facts, None)
